@@ -105,7 +105,7 @@ func (c *Ctx) lifecycle() *lifecycleTable {
 			sr.init = kv("").set("T", ws.ByName[sn])
 			var outs []cellOutcome
 			for _, sg := range sr.segments(f) {
-				if sg.Kind != "path" && !sg.Exit {
+				if sg.Kind != "path" {
 					continue // iterations of inner loops are summarised in the path
 				}
 				errv := "void"
